@@ -29,7 +29,7 @@ ASSUMPTIONS = [
 
 SCHEMA = {
     "m": [],
-    "a": [("style", 8), ("exit", 4)],
+    "a": [("style", 8), ("exit", 4), ("at", 2)],  # at: app:X or the empty default type
 }
 # exits used: 0 ok, 1 ValueError caught outside, 2 OSError, 3 Custom ; propagation
 # via EXITS index 12 (up=99) is added through "exit2"
@@ -39,7 +39,7 @@ STYLE_OK = (0, 3, 4, 6, 7)
 
 def BOUNDS(tier):
     if tier == "quick":
-        return {"max_nodes": 4, "devs": {1: 2, 2: 4, 3: 2, 4: 1}, "max_msgs": 7}
+        return {"max_nodes": 4, "devs": {1: 3, 2: 3, 3: 2, 4: 1}, "max_msgs": 7}
     return {"max_nodes": 5, "devs": {1: 2, 2: 4, 3: 6, 4: 3, 5: 1}, "max_msgs": 10}
 
 
@@ -78,6 +78,8 @@ def _translate(p):
     for nd in progs.walk(q):
         if nd[0] == "a" and "exit" in nd[1]:
             nd[1]["exit"] = EXIT_MAP[nd[1]["exit"]]
+        if nd[0] == "a" and nd[1].get("at"):
+            nd[1]["at"] = 2  # the empty action type
     return q
 
 
@@ -101,7 +103,27 @@ def run_case(p):
     for order in orders:
         execs += 1
         try:
-            tasks = list(Parser.parse_stream(order))
+            # consume lazily: a completed task must be yielded as soon as its last message was read
+            consumed = [0]
+
+            def feed(order=order):
+                for m in order:
+                    consumed[0] += 1
+                    yield m
+
+            tasks = []
+            last_pos = {}
+            for i, m in enumerate(order):
+                last_pos[m["task_uuid"]] = i + 1
+            for t in Parser.parse_stream(feed()):
+                tasks.append(t)
+                if t.is_complete() and consumed[0] != last_pos[t.root().task_uuid]:
+                    viol.append(
+                        (
+                            "parse_stream-completed-task-yielded-late",
+                            {"consumed": consumed[0], "last_message_at": last_pos[t.root().task_uuid]},
+                        )
+                    )
         except Exception as e:
             viol.append(("parse_stream-raised", {"error": repr(e)[:200]}))
             continue
